@@ -235,8 +235,8 @@ func init() {
 		NotDecided: []string{
 			"completeness over token sequences (every sequence written from the railroad diagrams is returned as exactly those tokens): proved instead are per-token extents and spellings",
 			"IsIdent / IsURLUnquoted agree with the lexer (their private Input may be a copy of the argument, and Input.Restore is a closure the engine does not model)",
-			"unquoted url( ) bodies (consumeUnquotedURL) and the case-insensitive, escape-stripped recognition of 'url(' (bytes.Replace + EqualFold); proved: a URL/BadURL token ends at ')' or the end of input, and the BadURL remnant scan stops at the first ')' outside an escape",
-			"comment tokens and at-keyword / custom-property / function token extents beyond the identifier scan they share",
+			"the case-insensitive, escape-stripped recognition of 'url(' (bytes.Replace + EqualFold) and how consumeIdentlike combines the url( scanners; proved per scanner: the unquoted body stops at ')', the end of input or the first character that may not appear unescaped, a URL/BadURL token ends at ')' or the end of input, the BadURL remnant scan stops at the first ')' outside an escape",
+			"function token extents (identifier followed by '('); comment, at-keyword and custom-property extents are proved",
 		},
 		Technique: "deductive verification: closed forms over digit/hex run ends for numbers, escapes and unicode ranges; user-defined orbit functions (first stopping position along variable-length scanning units) for identifiers, strings and BadURL remnants, with engine-asserted unfoldings; fixed spellings of delimiter tokens; VCs from go/ssa discharged by z3/cvc5",
 	})
